@@ -79,12 +79,20 @@ def run(res, replay=None):
         # with the default horizon are asked (the horizon search must not read whatever rate matrix the earlier query left behind)
         specs.append({'n_items': [['a', rng.choice([2, 3])]], 'model': {'kind': 'kingman'},
                       'pop_sizes': {'a': {'0.0': 4.0, '16.0': 0.0625}}, 'designed': 'slow_then_fast'})
+    if not replay:
+        # designed: consecutive epochs whose sizes differ by a few parts per million (1 + 2^-17, exactly representable): a rate
+        # matrix kept because the epochs 'look equal' is off by far more than the 1e-7 the property allows
+        step = 2.0 ** -17
+        specs.append({'n_items': [['a', 2]], 'model': {'kind': 'kingman'}, 'pop_sizes': {'a': {'0.0': 1.0, '0.5': 1.0 + step}},
+                      'designed': 'tiny_change'})
+        specs.append({'n_items': [['a', 3]], 'model': {'kind': 'kingman'},
+                      'pop_sizes': {'a': {repr(0.125 * i): 1.0 + i * step for i in range(0, 9)}}, 'designed': 'fine_staircase'})
     cases = []
     for j, s in enumerate(specs):
         ops = build_ops(rng, s, budget=(96 if res.tier == 'quick' else 180))
         c_ = {'spec': s, 'ops': [o[0] for o in ops], '_q': [o[1] for o in ops]}
         bs_ = sorted({float(t) for d in s['pop_sizes'].values() for t in d})
-        if (j % 3 == 1 or s.get('designed')) and len(bs_) > 1 and s.get('end_time') is None:
+        if (j % 3 == 1 or s.get('designed') == 'slow_then_fast') and len(bs_) > 1 and s.get('end_time') is None:
             # the object is first asked for the cdf / a quantile far beyond its last change point (the shared state space is
             # left in the last epoch), THEN for its moments with the default horizon
             c_['pre_ops'] = [{'kind': 'cdf', 'ts': [bs_[-1] + 40.0]}] + ([{'kind': 'quantile', 'q': 0.5}] if j % 2 == 0 and not s.get('designed') else [])
